@@ -16,7 +16,16 @@ def chars(s):
 
 
 def spell_number(r, big=False):
-    """a random valid unsigned numeric literal (string)"""
+    """a random valid unsigned numeric literal (string) of magnitude < 10^140: the library represents infinity by 10^150, finite data
+    must stay below it (precondition of the file properties)"""
+    for _ in range(50):
+        s = _spell_number(r, big)
+        if abs(lit_value(s)) < F(10) ** 140:
+            return s
+    return "7"
+
+
+def _spell_number(r, big=False):
     def digits(lo=1, hi=4):
         n = r.randint(lo, hi if not big else r.choice([hi, 12, 40, 150]))
         return "".join(r.choice("0123456789") for _ in range(n))
@@ -223,7 +232,7 @@ def render_lp(tree, r):
             else:
                 out.append(sp() + bstr(b["lo"]) + osp() + "<=" + osp() + b["var"] + osp() + "<=" + osp() + bstr(b["up"]) + "\n")
     if tree["ints"]:
-        out.append(_case(r, "Integer") + "\n")
+        out.append(_case(r, r.choice(["Integer", "Integer", "Int"])) + "\n")
         out.append(sp() + (" ".join(tree["ints"])) + "\n")
     out.append(_case(r, "End") + "\n")
     return "".join(out)
@@ -257,7 +266,7 @@ def denote_scenarios(seed, count, fmt="LP", big_every=5):
         files[fn] = body
         lines = ["scenario den%s_%d_%d" % (fmt, seed, k), "handler on", "read_prob h0 %s %s" % (fn, fmt), "dump h0",
                  hist.raw(dict(call="expect_lp", h="h0", fmt=fmt, tree=tree, props=["C10"])),
-                 "exact h0 primal - 1", "sol h0", "free h0"]
+                 "set_param h0 5 20000", "exact h0 primal - 1", "sol h0", "free h0"]      # (iteration limit: the solve is a smoke test here, not the subject)
         texts.append("\n".join(lines) + "\n")
     return "".join(texts), files
 
@@ -451,6 +460,13 @@ def rt_lp(r, big=False):
             j, v = lp["A"][i][0]
             lp["A"][i][0] = (j, F(r.getrandbits(900) + 1, r.getrandbits(700) + 1))
         lp["obj"][0] = F(-(r.getrandbits(300) + 1), 10 ** 50 + 1)
+        if r.random() < .25:
+            # numbers whose text is longer than any fixed I/O buffer (6000-digit numerator and denominator, moderate magnitude)
+            i = r.randrange(lp["m"])
+            if lp["A"][i]:
+                j, v = lp["A"][i][-1]
+                lp["A"][i][-1] = (j, F(r.getrandbits(20000) + 1, r.getrandbits(19900) + 1))
+            lp["rhs"][r.randrange(lp["m"])] += F(1, r.getrandbits(15000) + 2)
     # long expressions that wrap lines: widen a row with many columns of long names
     return lp
 
